@@ -76,7 +76,7 @@ fn run_one(case: &Value, dir: &str, seed: u64, delay_us: u64) -> Value {
 		}));
 	}
 	// reader threads: get_unspent of every commitment + head(), validate_tx of block transactions
-	let nreaders = case["readers"].as_u64().unwrap_or(2);
+	let nreaders = case["readers"].as_u64().unwrap_or(3);
 	for r in 0..nreaders {
 		let t = 100 + r;
 		let (chain, w, calls, panics, stop) = (chain.clone(), w.clone(), calls.clone(), panics.clone(), stop_readers.clone());
@@ -90,7 +90,27 @@ fn run_one(case: &Value, dir: &str, seed: u64, delay_us: u64) -> Value {
 			while !stop.load(Ordering::SeqCst) && n < 4000 {
 				let (c, commit) = commits[n % commits.len()];
 				let res = std::panic::catch_unwind(std::panic::AssertUnwindSafe(|| {
-					if r % 2 == 0 {
+					if r % 3 == 2 {
+						// validate_tx of a block's transaction under the read locks: Ok iff its inputs are
+						// unspent and its outputs are not (positioned by the txhashset read-lock acquisition)
+						let ids: Vec<u64> = w.tree.iter().filter(|(_, b)| !b.outs.is_empty() && b.lock < 1000).map(|(id, _)| *id).collect();
+						if ids.is_empty() {
+							return json!({"t": t, "k": "Noop"});
+						}
+						let b = ids[n % ids.len()];
+						let blk = &w.blocks[&b];
+						// the block's transaction = its non-coinbase part
+						let tx = grin_core::core::Transaction::new(
+							blk.inputs(),
+							&blk.outputs().iter().filter(|o| !o.is_coinbase()).cloned().collect::<Vec<_>>(),
+							&blk.kernels().iter().filter(|k| !k.is_coinbase()).cloned().collect::<Vec<_>>(),
+						);
+						let s0 = verif::event("vtx_start", b as usize);
+						let v = chain.validate_tx(&tx);
+						let s1 = verif::event("vtx_end", b as usize);
+						return json!({"t": t, "k": "ValidateTx", "b": b, "s0": s0, "s1": s1, "ok": v.is_ok()});
+					}
+					if r % 3 == 0 {
 						// read under the txhashset read lock: position in the log = its r_acq event
 						let s0 = verif::event("read_start", c as usize);
 						let v = chain.get_unspent(commit);
@@ -135,6 +155,30 @@ fn run_one(case: &Value, dir: &str, seed: u64, delay_us: u64) -> Value {
 				if n % 7 == 0 {
 					std::thread::sleep(Duration::from_micros(300));
 				}
+			}
+		}));
+	}
+	// a block-template builder: set_txhashset_roots takes both write locks and runs a read-only
+	// extension (rewind to the parent, apply, discard); it must never leak into the committed state
+	{
+		let (chain, w, panics, stop) = (chain.clone(), w.clone(), panics.clone(), stop_readers.clone());
+		handles.push(std::thread::spawn(move || {
+			global::set_local_chain_type(ChainTypes::AutomatedTesting);
+			global::set_local_nrd_enabled(true);
+			verif::set_thread_tag(200);
+			let ids: Vec<u64> = w.blocks.keys().cloned().filter(|b| *b != 0).collect();
+			let mut n = 0usize;
+			while !stop.load(Ordering::SeqCst) && n < 400 {
+				let b = ids[n % ids.len()];
+				let mut blk = w.blocks[&b].clone();
+				let r = std::panic::catch_unwind(std::panic::AssertUnwindSafe(|| {
+					let _ = chain.set_txhashset_roots(&mut blk);
+				}));
+				if r.is_err() {
+					panics.fetch_add(1, Ordering::SeqCst);
+				}
+				n += 1;
+				std::thread::sleep(Duration::from_micros(700));
 			}
 		}));
 	}
